@@ -521,9 +521,11 @@ class P(object):
     `route` = (template, method) the request goes to (for the documented 404/405 below the route's own version);
     `route_feature` = the probe is the route's introduction itself."""
 
-    def __init__(self, tag, name, method, path, present, absent, body=None, route=None, kw=None, origin='handler'):
+    def __init__(self, tag, name, method, path, present, absent, body=None, route=None, kw=None, origin='handler', pre=None):
         self.tag, self.name, self.method, self.path = tag, name, method, path
         self.present, self.absent, self.body, self.route, self.kw, self.origin = present, absent, body, route, kw or {}, origin
+        # requests (method, path, body) sent at the latest version before the probe, to put the state in place
+        self.pre = pre or []
 
     def request(self, v, gens):
         path = self.path(v, gens) if callable(self.path) else self.path
@@ -763,6 +765,18 @@ def feature_probes():
         lambda r, a: r.status == 200 and uuids(r) == [U2, U3], st(400))
     add('forbidden_aggregates', 'member_of=!agg on candidates', 'GET', CANDS + '&member_of=!%s' % AGG1,
         lambda r, a: r.status == 200 and list(r.json['provider_summaries']) == [U3], st(400), route=ca)
+    # the same with the parameter repeated (repeating is 1.24), the forbidden value first and last: every value is
+    # subject to the 1.32 gate, not only the last one
+    add('forbidden_aggregates', 'member_of=!agg&member_of=agg on listing', 'GET', '%s?member_of=!%s&member_of=%s' % (rp, AGG2, AGG1),
+        lambda r, a: r.status == 200 and uuids(r) == [U1], st(400))
+    add('forbidden_aggregates', 'member_of=agg&member_of=!agg on listing', 'GET', '%s?member_of=%s&member_of=!%s' % (rp, AGG1, AGG2),
+        lambda r, a: r.status == 200 and uuids(r) == [U1], st(400))
+    add('forbidden_aggregates', 'member_of=!in:&member_of=agg on candidates', 'GET',
+        CANDS + '&member_of=!in:%s&member_of=%s' % (AGG2, AGG1),
+        lambda r, a: r.status == 200 and len(r.json['allocation_requests']) == 1, st(400), route=ca)
+    add('forbidden_aggregates', 'member_of=agg&member_of=!agg on candidates', 'GET',
+        CANDS + '&member_of=%s&member_of=!%s' % (AGG1, AGG2),
+        lambda r, a: r.status == 200 and len(r.json['allocation_requests']) == 1, st(400), route=ca)
     # ---- 1.33
     add('string_suffixes', 'resources_A=', 'GET', '/allocation_candidates?resources_A=VCPU:1', st(200), st(400), route=ca)
     add('string_suffixes', 'uuid suffix', 'GET', '/allocation_candidates?resources_PORT_%s=VCPU:1&required_PORT_%s=CUSTOM_T1'
@@ -793,6 +807,17 @@ def feature_probes():
     add('reparenting', 'un-parent', 'PUT', '%s/%s' % (rp, U2),
         lambda r, a: r.status == 200 and r.json['parent_provider_uuid'] is None and r.json['root_provider_uuid'] == U2, st(400),
         body={'name': 'rp2', 'parent_provider_uuid': None})
+    # moves INSIDE one tree (the root does not change): to the grandparent, and below a sibling
+    U4, U5 = '44444444-4444-4444-4444-444444444444', '55555555-5555-5555-5555-555555555555'
+    grand = [('POST', rp, {'name': 'rp4', 'uuid': U4, 'parent_provider_uuid': U2})]
+    add('reparenting', 're-parent to the grandparent (same tree)', 'PUT', '%s/%s' % (rp, U4),
+        lambda r, a: r.status == 200 and r.json['parent_provider_uuid'] == U1 and r.json['root_provider_uuid'] == U1, st(400),
+        body={'name': 'rp4', 'parent_provider_uuid': U1}, pre=grand)
+    sib = [('POST', rp, {'name': 'rp4', 'uuid': U4, 'parent_provider_uuid': U1}),
+           ('POST', rp, {'name': 'rp5', 'uuid': U5, 'parent_provider_uuid': U1})]
+    add('reparenting', 're-parent below a sibling (same tree)', 'PUT', '%s/%s' % (rp, U5),
+        lambda r, a: r.status == 200 and r.json['parent_provider_uuid'] == U4 and r.json['root_provider_uuid'] == U1, st(400),
+        body={'name': 'rp5', 'parent_provider_uuid': U4}, pre=sib)
     # ---- 1.38
     add('consumer_type', 'PUT with consumer_type', 'PUT', '/allocations/%s' % C2, st(204), st(400),
         body=lambda v, g: alloc_body(v, consumer_type=True), route=pa)
@@ -867,6 +892,10 @@ def part_b(cx, gens, thorough, probe_index):
             label, version, extra, key, doc = case
             v = doc[1]
             cx.app.restore(snap)
+            for (pm, pp, pb) in p.pre:
+                pr = cx.app.call(pm, pp, pb)
+                if pr.status >= 300:
+                    raise RuntimeError('probe %s: preparing request %s %s answered %s' % (p.name, pm, pp, pr.status))
             method, path, body = p.request(v, gens)
             r = cx.call(method, path, case, body=body, origin=p.origin, **p.kw)
             chk.evaluation(['B', p.tag, p.name, label])
